@@ -24,7 +24,7 @@ use std::{
     fmt,
     ops::{Deref, DerefMut},
 };
-use unicode_width::UnicodeWidthStr;
+use unicode_width::UnicodeWidthChar;
 
 mod cell;
 mod contacts;
@@ -536,7 +536,20 @@ impl CellBuffer {
                         acc
                     },
                 );
-                let escaped_unicode_width = escaped.width();
+                // the columns taken in the grid: a wide character takes its width,
+                // the NUL fillers that follow it are already counted,
+                // anything else takes 1
+                let (escaped_unicode_width, _fillers) = escaped.chars().fold(
+                    (0usize, 0usize),
+                    |(columns, fillers), ch| {
+                        if ch == '\0' && fillers > 0 {
+                            (columns, fillers - 1)
+                        } else {
+                            let w = ch.width().unwrap_or(1).max(1);
+                            (columns + w, w - 1)
+                        }
+                    },
+                );
                 let cell = Cell::new(*start as i32, line as i32);
                 escaped_text.push((cell, escaped));
                 no_escaped_text += &input_chars[index..*start].iter().fold(
